@@ -135,7 +135,7 @@ class TokRule:
 def extract(lib):
     ses = session.Session([lib], lib)
     fn = ses.tok_new
-    classes = [c for c in fsm.partition_at(fsm.int_cuts([fn]) | ref.boundaries()) if 0 not in c]
+    classes = [c for c in fsm.partition_at(fsm.int_cuts(fsm.with_callees(lib, [fn])) | ref.boundaries()) if 0 not in c]
     rule = TokRule(fn, classes)
     I = Interp([lib], rule)
     exits = I.run(fn, [INPUT], (None, None, ()), {})
